@@ -10,6 +10,9 @@ def sunCacheMax : Nat := 64
 def sunCacheEvict : Nat := 10
 def dayNames : List (String × Nat) := [("mo", 1), ("mon", 1), ("monday", 1), ("montag", 1), ("di", 2), ("dienstag", 2), ("tue", 2), ("tuesday", 2), ("mi", 3), ("mittwoch", 3), ("wed", 3), ("wednesday", 3), ("do", 4), ("donnerstag", 4), ("thu", 4), ("thursday", 4), ("fr", 5), ("freitag", 5), ("fri", 5), ("friday", 5), ("sa", 6), ("samstag", 6), ("sat", 6), ("saturday", 6), ("so", 7), ("sonntag", 7), ("sun", 7), ("sunday", 7)]
 def monthNames : List (String × Nat) := [("jan", 1), ("januar", 1), ("january", 1), ("feb", 2), ("februar", 2), ("february", 2), ("mar", 3), ("march", 3), ("mrz", 3), ("mär", 3), ("märz", 3), ("apr", 4), ("april", 4), ("mai", 5), ("may", 5), ("jun", 6), ("june", 6), ("juni", 6), ("jul", 7), ("juli", 7), ("july", 7), ("aug", 8), ("august", 8), ("sep", 9), ("september", 9), ("oct", 10), ("october", 10), ("okt", 10), ("oktober", 10), ("nov", 11), ("november", 11), ("dec", 12), ("december", 12), ("dez", 12), ("dezember", 12)]
+/-- the same tables as lists of characters (kernel-friendly) -/
+def dayNamesC : List (List Char × Nat) := [(['m', 'o'], 1), (['m', 'o', 'n'], 1), (['m', 'o', 'n', 'd', 'a', 'y'], 1), (['m', 'o', 'n', 't', 'a', 'g'], 1), (['d', 'i'], 2), (['d', 'i', 'e', 'n', 's', 't', 'a', 'g'], 2), (['t', 'u', 'e'], 2), (['t', 'u', 'e', 's', 'd', 'a', 'y'], 2), (['m', 'i'], 3), (['m', 'i', 't', 't', 'w', 'o', 'c', 'h'], 3), (['w', 'e', 'd'], 3), (['w', 'e', 'd', 'n', 'e', 's', 'd', 'a', 'y'], 3), (['d', 'o'], 4), (['d', 'o', 'n', 'n', 'e', 'r', 's', 't', 'a', 'g'], 4), (['t', 'h', 'u'], 4), (['t', 'h', 'u', 'r', 's', 'd', 'a', 'y'], 4), (['f', 'r'], 5), (['f', 'r', 'e', 'i', 't', 'a', 'g'], 5), (['f', 'r', 'i'], 5), (['f', 'r', 'i', 'd', 'a', 'y'], 5), (['s', 'a'], 6), (['s', 'a', 'm', 's', 't', 'a', 'g'], 6), (['s', 'a', 't'], 6), (['s', 'a', 't', 'u', 'r', 'd', 'a', 'y'], 6), (['s', 'o'], 7), (['s', 'o', 'n', 'n', 't', 'a', 'g'], 7), (['s', 'u', 'n'], 7), (['s', 'u', 'n', 'd', 'a', 'y'], 7)]
+def monthNamesC : List (List Char × Nat) := [(['j', 'a', 'n'], 1), (['j', 'a', 'n', 'u', 'a', 'r'], 1), (['j', 'a', 'n', 'u', 'a', 'r', 'y'], 1), (['f', 'e', 'b'], 2), (['f', 'e', 'b', 'r', 'u', 'a', 'r'], 2), (['f', 'e', 'b', 'r', 'u', 'a', 'r', 'y'], 2), (['m', 'a', 'r'], 3), (['m', 'a', 'r', 'c', 'h'], 3), (['m', 'r', 'z'], 3), (['m', 'ä', 'r'], 3), (['m', 'ä', 'r', 'z'], 3), (['a', 'p', 'r'], 4), (['a', 'p', 'r', 'i', 'l'], 4), (['m', 'a', 'i'], 5), (['m', 'a', 'y'], 5), (['j', 'u', 'n'], 6), (['j', 'u', 'n', 'e'], 6), (['j', 'u', 'n', 'i'], 6), (['j', 'u', 'l'], 7), (['j', 'u', 'l', 'i'], 7), (['j', 'u', 'l', 'y'], 7), (['a', 'u', 'g'], 8), (['a', 'u', 'g', 'u', 's', 't'], 8), (['s', 'e', 'p'], 9), (['s', 'e', 'p', 't', 'e', 'm', 'b', 'e', 'r'], 9), (['o', 'c', 't'], 10), (['o', 'c', 't', 'o', 'b', 'e', 'r'], 10), (['o', 'k', 't'], 10), (['o', 'k', 't', 'o', 'b', 'e', 'r'], 10), (['n', 'o', 'v'], 11), (['n', 'o', 'v', 'e', 'm', 'b', 'e', 'r'], 11), (['d', 'e', 'c'], 12), (['d', 'e', 'c', 'e', 'm', 'b', 'e', 'r'], 12), (['d', 'e', 'z'], 12), (['d', 'e', 'z', 'e', 'm', 'b', 'e', 'r'], 12)]
 def dstMonthOrder : List Nat := [3, 4, 11, 9, 10]
 def dstHourOrder : List Nat := [2, 3, 0, 1]
 
